@@ -964,26 +964,29 @@ func slInvariants(net *acmelib.Network, exactRefs bool, names ...string) []slVio
 	// reference lists
 	// a signal of the save that the loader built but never placed (e.g. the first of two
 	// signals with one entity id inside a multiplexer) is OUTSIDE the network; it legitimately
-	// references its definitions, exactly like a signal made through the API and never attached
+	// references its definitions, exactly like a signal made through the API and never attached.
+	// The same holds for a signal inside a multiplexer that was built and never placed (a
+	// multi-group child that is a multiplexer is saved once per group; the loader builds every
+	// occurrence with its whole subtree and keeps the last): the tree it sits in has no message.
 	for t, us := range c.typeUsers {
 		typ := t
 		slRefsCheck(c, sprintf("type %q(%s)", t.Name(), t.EntityID()), t.References(), t.ReferenceCount(), us, exactRefs,
 			func(sg *acmelib.StandardSignal) bool {
-				return sg != nil && sg.Type() == typ && sg.ParentMessage() == nil && sg.ParentMultiplexerSignal() == nil
+				return sg != nil && sg.Type() == typ && slDetachedTree(sg)
 			})
 	}
 	for u, us := range c.unitUsers {
 		unit := u
 		slRefsCheck(c, sprintf("unit %q(%s)", u.Name(), u.EntityID()), u.References(), u.ReferenceCount(), us, exactRefs,
 			func(sg *acmelib.StandardSignal) bool {
-				return sg != nil && sg.Unit() == unit && sg.ParentMessage() == nil && sg.ParentMultiplexerSignal() == nil
+				return sg != nil && sg.Unit() == unit && slDetachedTree(sg)
 			})
 	}
 	for e, us := range c.enumUsers {
 		enum := e
 		slRefsCheck(c, sprintf("enum %q(%s)", e.Name(), e.EntityID()), e.References(), e.ReferenceCount(), us, exactRefs,
 			func(sg *acmelib.EnumSignal) bool {
-				return sg != nil && sg.Enum() == enum && sg.ParentMessage() == nil && sg.ParentMultiplexerSignal() == nil
+				return sg != nil && sg.Enum() == enum && slDetachedTree(sg)
 			})
 		valNames := map[string]bool{}
 		valIdx := map[int]bool{}
@@ -1162,4 +1165,19 @@ func slViewNames(v *slView) []string {
 		}
 	}
 	return ns
+}
+
+
+// slDetachedTree: the signal has no parent message and the multiplexer tree it sits in (if any)
+// is attached to no message either.
+func slDetachedTree(sg acmelib.Signal) bool {
+	if sg.ParentMessage() != nil {
+		return false
+	}
+	for depth, mx := 0, sg.ParentMultiplexerSignal(); mx != nil && depth < 64; depth, mx = depth+1, mx.ParentMultiplexerSignal() {
+		if mx.ParentMessage() != nil {
+			return false
+		}
+	}
+	return true
 }
